@@ -49,7 +49,8 @@ PROP = {
                   "relation for every kind-stable, Any-free sub type incl. optionals; outside: the run-time/checker disagreement on `Never?` as witness. "
                   "Also `runtime_agrees_partial`, the 49x49 simple-type table (`simple_agree`) and "
                   "49^3 transitivity table. Tied to /repo by the `types` stream: all pairs of 49 simple and 18 nominal types and generated "
-                  "pairs / chain-biased triples of structured types (incl. related function and range types) built with the real sema API from a "
+                  "pairs / chain-biased triples of structured types (incl. related function and range types; every pair of entitlement-set "
+                  "authorizations over four entitlements at top level, the overlapping same-kind same-size pairs below every constructor and in random types) built with the real sema API from a "
                   "universe declared through the real checker; sema.IsSubType, interpreter.IsSubType, IsSubTypeOfSemaType, the hand-written "
                   "and both generated CheckSubTypeWithoutEquality functions and the sema->static->sema round trip must agree with each other, "
                   "with the interpreted rules AND with the structured relation `Struct.sub` (a disagreement is a MODELDIFF); reflexivity, bounds and "
